@@ -35,14 +35,21 @@
                                 on such data, WITHOUT any rank hypothesis: e = 0, the returned coefficients are those
                                 of the root polynomial, every z_i is a root of the returned polynomial and it has no
                                 other root — the p frequencies are recovered exactly
+     gauss_sound                Gaussian elimination (Model/Ls.v) returns a solution of the system it is given
+     ls_solve_complete          on a matrix of full column rank the executable solver returns (no zero pivot: the Gram
+                                matrix is definite and Schur complements of definite matrices are definite)
+     arcovar_model_returns / modcovar_model_returns
+                                the executed model returns on every full-column-rank input (no vacuity on the domain)
+     arcovar_model_recovers / modcovar_model_recovers
+                                closed end-to-end statement for the executed model on p distinct exponentials, N >= 2p:
+                                it returns, e = 0, coefficients = root polynomial
    NOT PROVED:
-     * completeness of ls_solve (returns Some whenever the Gram matrix is non-singular) — exercised by
-       the correspondence run only;
      * the Marple fast recursions (arcovar_marple, modcovar_marple) equal the least-squares solution:
        TEST only (search on the implementation against independent normal equations). *)
 Require Import Spectrum.Theory.Ops Spectrum.Theory.Sum Spectrum.Theory.Vec Spectrum.Theory.Order
                Spectrum.Model.Corr Spectrum.Model.Ls
                Spectrum.Proofs.LsTheory Spectrum.Proofs.CovarTheory Spectrum.Proofs.CovarOpt Spectrum.Proofs.CovarExp Spectrum.Proofs.CovarClosed Spectrum.Proofs.CovarVdm
+               Spectrum.Proofs.GaussTheory Spectrum.Proofs.CovarFinal
                Spectrum.Instances.QcC Spectrum.Instances.QcCOrd.
 From Coq Require Import QArith Qcanon.
 
@@ -214,6 +221,35 @@ Theorem modcovar_model_optimal tol (x : list F) p a e : modcovar tol x p = Some 
   /\ e = fwd_energy x p (nthF a) + bwd_energy x p (nthF a)
   /\ forall c : nat -> F, le e (fwd_energy x p c + bwd_energy x p c).
 Proof. exact (modcovar_model_optimal_thm tol x p a e). Qed.
+Theorem gauss_sound p (rows : list (list F)) sol : gauss p rows = Some sol ->
+  length sol = p /\ forall i, (i < p)%nat -> sumf p (fun j => ent rows i j * nthF sol j) = ent rows i p.
+Proof. exact (GaussTheory.gauss_sound p rows sol). Qed.
+
+Theorem ls_solve_complete p (A : list (list F)) (b : list F) :
+  (forall c : nat -> F, (forall n, (n < length A)%nat -> sumf p (fun j => ent A n j * c j) = 0) -> forall j, (j < p)%nat -> c j = 0) ->
+  exists a, ls_solve p A b = Some a.
+Proof. exact (ls_solve_complete_thm p A b). Qed.
+
+Theorem arcovar_model_returns tol (x : list F) p : cov_full_rank x p -> exists a e, arcovar tol x p = Some (a, e).
+Proof. exact (arcovar_model_returns_thm tol x p). Qed.
+
+Theorem modcovar_model_returns tol (x : list F) p : mod_full_rank x p -> exists a e, modcovar tol x p = Some (a, e).
+Proof. exact (modcovar_model_returns_thm tol x p). Qed.
+
+Theorem arcovar_model_recovers tol (x : list F) p amp z c :
+  (forall t, (t < length x)%nat -> nthF x t = expsum p amp z t) ->
+  (forall i j, (i < j < p)%nat -> z i <> z j) -> (forall i, (i < p)%nat -> amp i <> 0) -> (2 * p <= length x)%nat ->
+  (forall i, (i < p)%nat -> monic_eval p c (z i) = 0) ->
+  exists a, arcovar tol x p = Some (a, 0) /\ length a = p /\ forall j, (j < p)%nat -> nthF a j = c j.
+Proof. exact (arcovar_model_recovers_thm tol x p amp z c). Qed.
+
+Theorem modcovar_model_recovers tol (x : list F) p amp z c :
+  (forall t, (t < length x)%nat -> nthF x t = expsum p amp z t) ->
+  (forall i j, (i < j < p)%nat -> z i <> z j) -> (forall i, (i < p)%nat -> amp i <> 0) -> (2 * p <= length x)%nat ->
+  (forall i, (i < p)%nat -> monic_eval p c (z i) = 0) ->
+  (forall i, (i < p)%nat -> z i * conj (z i) = 1) ->
+  exists a, modcovar tol x p = Some (a, 0) /\ length a = p /\ forall j, (j < p)%nat -> nthF a j = c j.
+Proof. exact (modcovar_model_recovers_thm tol x p amp z c). Qed.
 End C14.
 
 (* ---------- non-vacuity on concrete Gaussian-rational inputs ---------- *)
@@ -267,3 +303,9 @@ Print Assumptions covar_exact_recovery.
 Print Assumptions modcovar_exact_recovery.
 Print Assumptions arcovar_model_optimal.
 Print Assumptions modcovar_model_optimal.
+Print Assumptions gauss_sound.
+Print Assumptions ls_solve_complete.
+Print Assumptions arcovar_model_returns.
+Print Assumptions modcovar_model_returns.
+Print Assumptions arcovar_model_recovers.
+Print Assumptions modcovar_model_recovers.
